@@ -22,7 +22,7 @@ NS = 'romea::core::'
 
 def run(fx, R, tier):
     R.floor('R1', 2)
-    R.floor('R5', 10)
+    R.floor('R5', 4)      # two normalisers x two scalar types, at least one path each (a branch-free formulation has one)
     check_smart_rotation(fx, R)
     for S in ('double', 'float'):
         check_builders(fx, R, S)
@@ -677,27 +677,40 @@ def judge_normaliser(fx, R, f, name, S, adv):
             fm = [a for a in r.atoms(sp.core.function.AppliedUndef) if str(a.func) == 'fmod']
             if fm:
                 f0 = fm[0]
-                okmod = f0.args[0] == val and (sp.simplify(f0.args[1] - two_pi) == 0 or (f0.args[1].is_number and abs(sp.N(f0.args[1] - two_pi, 30)) < sp.Float('1e-6')))      # 2 pi, or its rounding to the scalar type
-                base = sp.Interval.open(-two_pi, two_pi)
+                near2pi = sp.simplify(f0.args[1] - two_pi) == 0 or (f0.args[1].is_number and abs(sp.N(f0.args[1] - two_pi, 30)) < sp.Float('1e-6'))      # 2 pi, or its rounding to the scalar type
+                pre = sp.simplify(f0.args[0] - val)            # a constant added before folding (fmod(val + 2 pi, 2 pi), fmod(val + pi, 2 pi) - pi): the sign of the folded value follows the shifted argument
+                okmod = near2pi and pre.is_number and not pre.free_symbols
                 var = sp.Symbol('f', real=True)
+                if okmod:
+                    lo, hi = sp.N(-4 * sp.pi + pre, 30), sp.N(4 * sp.pi + pre, 30)
+                    base = sp.Interval.Ropen(0, two_pi) if lo >= 0 else sp.Interval.Lopen(-two_pi, 0) if hi <= 0 else sp.Interval.open(-two_pi, two_pi)       # fmod takes the sign of its first argument
+                else:
+                    base = sp.Interval.open(-two_pi, two_pi)
                 rr = r.subs(f0, var)
+                pre0 = pre if okmod else 0                               # congruence is judged against the input: result - value = (result - folded) + pre (mod 2 pi)
                 conds = [(c[1].subs(f0, var), c[2]) for c in st.cond if isinstance(c[1], sp.Basic)]
+                M_ = f0.args[1]
+                if not okmod and pre.is_number and M_.is_number and 0 < sp.N(M_, 30) < sp.N(4 * sp.pi, 30) and abs(sp.N(M_ / two_pi - round(float(M_ / two_pi)), 30)) > sp.Float('1e-6'):
+                    R.violated('R5', '%s<%s>:modulus' % (name, S), 'the reduction folds by %s, not by 2 pi: for inputs beyond that modulus (all |value| < 4 pi are allowed) the result differs from the input by a multiple of '
+                               '%s, which is not a multiple of a full turn' % (M_, M_), loc, 'E-INT')
+                    continue
                 if not okmod:
-                    R.violated('R5', '%s<%s>:modulus' % (name, S), 'the reduction is %s, not fmod(value, 2 pi)' % f0, loc, 'E-INT')
+                    R.undecided('R5', '%s<%s>:modulus' % (name, S), 'the reduction is %s, not a fold of (value + constant) by 2 pi: a form outside the enumerated ones' % f0)
                     continue
             else:
                 # no reduction: the input range of the quantifier applies directly
                 base = sp.Interval.open(-4 * sp.pi, 4 * sp.pi)
                 var = val
                 rr = r
+                pre0 = 0
                 conds = [(c[1], c[2]) for c in st.cond if isinstance(c[1], sp.Basic)]
             shift = sp.simplify(rr - var)
-            k = sp.simplify(shift / two_pi)
+            k = sp.simplify((shift + pre0) / two_pi)
             if not k.is_Integer and k.is_number and abs(sp.N(k - sp.Integer(round(float(k))), 30)) < sp.Float('1e-6'):
                 k = sp.Integer(round(float(k)))            # a multiple of 2 pi rounded to the scalar type
-                shift = k * two_pi
+                shift = k * two_pi - pre0
             if not k.is_Integer:
-                R.violated('R5', '%s<%s>:congruence' % (name, S), 'on the path [%s] the result differs from the input by %s, not by a multiple of 2 pi' % (desc, shift), loc, 'E-INT')
+                R.violated('R5', '%s<%s>:congruence' % (name, S), 'on the path [%s] the result differs from the input by %s (plus whole folds), not by a multiple of 2 pi' % (desc, sp.simplify(shift + pre0)), loc, 'E-INT')
                 continue
             dom = base
             okc = True
